@@ -56,6 +56,10 @@ static sexp_sint_t verif_slice (sexp ctx, sexp_sint_t fuel) {
   int i;
   if (verif_sched_mode < 0) verif_sched_init();
   if (!verif_sched_mode || fuel <= 0) return fuel;
+  /* only while there is somebody to switch to: keeps single-threaded phases (module loading) at */
+  /* full speed and makes an explicit slice list start with the first multi-threaded quantum     */
+  if (!sexp_pairp(sexp_global(ctx, SEXP_G_THREADS_FRONT)) && !sexp_pairp(sexp_global(ctx, SEXP_G_THREADS_PAUSED)))
+    return fuel;
   if (verif_sched_mode == 1) {
     verif_sched_state ^= verif_sched_state << 13; verif_sched_state ^= verif_sched_state >> 7; verif_sched_state ^= verif_sched_state << 17;
     res = 1 + (sexp_sint_t)(verif_sched_state % (uint64_t)verif_sched_max);
